@@ -107,6 +107,67 @@ void show_vec(std::ostream & os, const V & v)
     }
 }
 
+// ------------------------------------------------------------------ probe backend
+// records every coordinate it is asked for (as the case files carry scalars) and returns a small
+// hash of it; mirrors Stack.v probe_at / probe_hash
+inline std::vector<std::string> & probe_log()
+{
+    static std::vector<std::string> log;
+    return log;
+}
+template <typename T>
+__int128 as_Z(T v)
+{
+    if constexpr (std::is_same_v<T, float>) {
+        uint32_t b;
+        std::memcpy(&b, &v, 4);
+        return b;
+    } else if constexpr (std::is_same_v<T, double>) {
+        uint64_t b;
+        std::memcpy(&b, &v, 8);
+        return b;
+    } else {
+        return static_cast<__int128>(v);
+    }
+}
+template <typename I, typename O>
+struct probe {
+    using this_t = probe<I, O>;
+    static constexpr bool is_initial = true;
+    using contravariant_input_t = covfie::vector::array_vector_d<I>;
+    using covariant_output_t = covfie::vector::array_vector_d<O>;
+    using configuration_t = std::monostate;
+    static constexpr uint32_t IO_MAGIC_HEADER = 0xAB01FFFF;
+    struct owning_data_t {
+        using parent_t = this_t;
+        explicit owning_data_t() {}
+        explicit owning_data_t(configuration_t) {}
+        explicit owning_data_t(covfie::parameter_pack<configuration_t> &&) {}
+        explicit owning_data_t(covfie::parameter_pack<owning_data_t> &&) {}
+        configuration_t get_configuration() const { return {}; }
+        static owning_data_t read_binary(std::istream &) { throw std::runtime_error("probe is not serialisable"); }
+        static void write_binary(std::ostream &, const owning_data_t &) { throw std::runtime_error("probe is not serialisable"); }
+    };
+    struct non_owning_data_t {
+        using parent_t = this_t;
+        non_owning_data_t(const owning_data_t &) {}
+        typename covariant_output_t::vector_t at(typename contravariant_input_t::vector_t c) const
+        {
+            __int128 h = 0;
+            for (std::size_t k = 0; k < contravariant_input_t::dimensions; ++k) {
+                probe_log().push_back(show_scalar(c[k]));
+                __int128 x = as_Z(c[k]) % 1009;
+                if (x < 0) x += 1009;
+                h += x * static_cast<__int128>(2 * k + 7);
+            }
+            typename covariant_output_t::vector_t rv;
+            for (std::size_t j = 0; j < covariant_output_t::dimensions; ++j)
+                rv[j] = static_cast<typename covariant_output_t::scalar_t>(static_cast<long long>((h + 5 * static_cast<__int128>(j)) % 97));
+            return rv;
+        }
+    };
+};
+
 // ------------------------------------------------------------------ per-layer configuration IO
 template <typename B>
 struct L {
@@ -342,6 +403,21 @@ struct H : Handler {
                 else
                     show_vec(os, std::decay_t<out_t>(v.at(x)));
             }
+            return os.str();
+        }
+        if (name == "fp") {
+            // the coordinates the probe backend is asked for during one lookup
+            field_t & f = get(c);
+            view_t v(f);
+            coord_t x = parse_vec<coord_t>(c);
+            probe_log().clear();
+            if constexpr (std::is_scalar_v<coord_t>) {
+                (void)v.at(x);
+            } else {
+                (void)v.at(x);
+            }
+            os << "T";
+            for (auto & e : probe_log()) os << ' ' << e;
             return os.str();
         }
         if (name == "wr") {
